@@ -404,7 +404,7 @@ func init() {
 		Rule: "cases < R: real SBOM number k mod 12 of the repository (6 SPDX, 6 CycloneDX; the first round unmodified, later rounds under JSON-level mutations chosen by the case PRNG: drop/duplicate components or packages, re-parent nested components, add relationships of every type / dependency entries between existing elements, strip bom-refs), parsed by protobom, then written in EVERY registered format (SPDX 2.3, CycloneDX 1.0-1.5); " +
 			"cases >= R: generated well-formed graphs deliberately outside the round-trip classes (several purposes, dependsOn and contains between arbitrary nodes, DAG and cyclic containment, all edge types, 1 or several roots). " +
 			"Each successful output is decoded with encoding/json only and compared with the document: every node present (exactly once when containment is a forest), every expressible relationship present under the specification's name (harness's own tables), nothing invented, no dangling reference; " +
-			"then read back and identity attributes (id, name, version, purl/CPE, hashes of shared algorithms) compared. Writer errors are acceptable outcomes. distinct = hash of (output bytes); non-trivial = document with >=2 nodes and >=1 edge.",
+			"then read back and identity attributes (id, name, version, purl/CPE, hashes of shared algorithms) compared. Writer errors are acceptable outcomes. Generated documents: a sixth of the identifiers come from the library's own generator, a quarter of the documents use short related identifiers, a third are stored with split and interleaved edge records, and a third are written after ANOTHER document that uses the same identifiers in other roles. distinct = hash of (output bytes); non-trivial = document with >=2 nodes and >=1 edge.",
 		Assumptions: []string{"ids need no JSON escapes and do not start with SPDXRef-/DocumentRef- (tools-golang raw-bytes id readers: known finding C05 spdx-raw-string-escape)", "nodes with generated (protobom-auto) ids are matched by name and version because the CycloneDX serializer erases those refs by design", "UNKNOWN edge types are not relationships a format can express"},
 		NCases: func(tier string) int {
 			if tier == "thorough" {
@@ -427,7 +427,7 @@ func c03Generated(c *core.C) *sbom.Document {
 		doc.Metadata.Name = gen.TextSafe(r, 6)
 	}
 	n := 1 + r.Intn(10)
-	ids := gen.UniqueIDs(r, n, func(r *rand.Rand) string {
+	ids := gen.UniqueIDsSep(r, n, func(r *rand.Rand) string {
 		if r.Intn(6) == 0 {
 			// identifiers made by the library's own generator from ordinary seeds: they carry the reserved prefix
 			// but only the ones flagged "auto" are generated placeholders
@@ -448,7 +448,7 @@ func c03Generated(c *core.C) *sbom.Document {
 			return gen.IDSpdx(r)
 		}
 		return id
-	})
+	}, "1-./:|,+#@_")
 	for i, id := range ids {
 		var nd *sbom.Node
 		switch r.Intn(3) {
@@ -477,6 +477,23 @@ func c03Generated(c *core.C) *sbom.Document {
 		roots = []string{ids[0]} // mostly single-rooted so that CycloneDX can be written
 	}
 	doc.NodeList.RootElements = roots
+	if r.Intn(6) == 0 {
+		// two containment (and dependency) links below non-root nodes whose identifiers glue to the same string
+		q := gen.GluedKeyQuad(r)
+		if !gen.IDSet(doc.NodeList).Has(q[0]) && !gen.IDSet(doc.NodeList).Has(q[1]) && !gen.IDSet(doc.NodeList).Has(q[2]) && !gen.IDSet(doc.NodeList).Has(q[3]) && q[0] != q[3] {
+			for _, id := range q {
+				doc.NodeList.Nodes = append(doc.NodeList.Nodes, gen.CDXNode(r, id, 15, c.K, false))
+			}
+			top := doc.NodeList.RootElements[0]
+			doc.NodeList.Edges = append(doc.NodeList.Edges,
+				&sbom.Edge{From: top, Type: sbom.Edge_contains, To: []string{q[0], q[1]}},
+				&sbom.Edge{From: q[0], Type: sbom.Edge_contains, To: []string{q[2]}},
+				&sbom.Edge{From: q[1], Type: sbom.Edge_contains, To: []string{q[3]}},
+				&sbom.Edge{From: q[0], Type: sbom.Edge_dependsOn, To: []string{q[2]}},
+				&sbom.Edge{From: q[1], Type: sbom.Edge_dependsOn, To: []string{q[3]}})
+			c.Cover("generated-with-glued-key-quadruple")
+		}
+	}
 	return doc
 }
 
